@@ -1,4 +1,4 @@
 """READY: properties whose check is finished and registered in MANIFEST.json.
 NOT_APPLICABLE: reasons for properties not claimed (property id -> reason)."""
-READY = {"C01", "C02", "C03", "C04", "C05", "C06", "C08", "C09", "C12", "C14", "C15"}
+READY = {"C01", "C02", "C03", "C04", "C05", "C06", "C08", "C09", "C12", "C13", "C14", "C15", "C30", "C31", "C32"}
 NOT_APPLICABLE = {}
